@@ -288,6 +288,7 @@ Proof.
   - free_rest.
   - free_rest.
   - free_rest.
+  - free_rest.
   - rewrite <- (step_cfg (s_cfg s) s e eq_refl). apply IH. apply step_boundary; exact Hb.
 Qed.
 
